@@ -14,7 +14,7 @@ NODE_TAGS = {"N4S", "N4I", "N4G", "N4P", "N4L", "N4R", "N4C", "N4D", "N16S", "N1
 # 1500 for the collation universe, which does not close).  Depth 16 closes the other five universes (they need 11..15).
 # closure:shape / closure:map write only the observations C11 / C01 compare (the extracted model is the slow side).
 PROPS = {
-    "C01": dict(title="exact key->value map", families=[("tree:map", 16, 160, 160, 22), ("nul", 2, 16, 60, 10), ("closure:map", 6, 6, 8, 0, 16, 0)],
+    "C01": dict(title="exact key->value map", families=[("tree:map", 16, 160, 160, 22), ("nul", 2, 16, 60, 10), ("huge", 1, 3, 1, 2), ("closure:map", 6, 6, 8, 0, 16, 0)],
                 corr={"I", "S", "D"}, oracle={"I", "S", "D"}, theorem="Properties/C01.v",
                 corpus=["D1", "D2", "D14"]),
     "C02": dict(title="iteration complete, duplicate-free, sorted", families=[("tree:iter", 16, 160, 120, 22), ("nul:clean", 2, 16, 60, 10)], side="C02",
@@ -22,7 +22,7 @@ PROPS = {
     "C03": dict(title="Range exact", families=[("tree:range", 16, 160, 120, 22)],
                 corr={"RNG"}, oracle={"RNG"}, theorem="Properties/C03.v", corpus=["D4", "D5", "D12", "D13"]),
     "C04": dict(title="Prefix exact", families=[("tree:prefix:alpha", 10, 100, 120, 22), ("tree:prefix:coll", 6, 60, 100, 14)],
-                corr={"PFX"}, oracle={"PFX"}, theorem="Properties/C04.v", corpus=["D6a", "D6b", "D6c"]),
+                corr={"PFX"}, oracle={"PFX"}, theorem="Properties/C04.v", corpus=["D6a", "D6b", "D6c"], opts=["-buf"]),
     "C05": dict(title="Minimum/Maximum/TopK/BottomK", families=[("tree:extremes", 16, 160, 120, 22)],
                 corr={"MIN", "MAX", "TOPK", "BOTK"}, oracle={"MIN", "MAX", "TOPK", "BOTK"}, theorem="Properties/C05.v"),
     "C06": dict(title="Size", families=[("tree:size", 16, 160, 140, 22)],
@@ -30,8 +30,8 @@ PROPS = {
     "C07": dict(title="numeric key encodings", families=[("codec", 4, 40, 0, 0)],
                 corr={"ENC"}, oracle=set(), theorem="Properties/C07.v", need386=True, special="codec"),
     "C08": dict(title="collation trees", families=[("tree:full:coll", 20, 160, 110, 14)],
-                corr=ALL_TREE_TAGS - {"RNG"}, oracle=ALL_TREE_TAGS - {"RNG"}, theorem="Properties/C08.v", opts=["-buf"], side="C08"),
-    "C09": dict(title="compound trees", families=[("tree:full:comp", 12, 120, 120, 20), ("tree:full:raw", 2, 20, 120, 12), ("codec", 2, 20, 0, 0)],
+                corr=ALL_TREE_TAGS, oracle=ALL_TREE_TAGS - {"RNG"}, theorem="Properties/C08.v", opts=["-buf"], side="C08"),
+    "C09": dict(title="compound trees", families=[("tree:full:comp", 12, 120, 120, 20), ("tree:full:raw", 2, 20, 120, 12), ("huge", 1, 3, 1, 2), ("codec", 2, 20, 0, 0)],
                 corr=ALL_TREE_TAGS | {"ENC"}, oracle=ALL_TREE_TAGS - {"PFX"}, theorem="Properties/C09.v", opts=["-buf"], side="C09"),
     "C10": dict(title="inner node tables", families=[("node4", 3, 12, 0, 0), ("node16", 3, 12, 0, 0), ("nodeseq", 8, 80, 0, 0)],
                 corr=NODE_TAGS, oracle=set(), theorem="Properties/C10.v", need386=True, special="node", corpus=["D11"]),
@@ -41,7 +41,7 @@ PROPS = {
     "C12": dict(title="recycled nodes", families=[("multi", 12, 120, 110, 4), ("nodeseq", 3, 30, 0, 0)],
                 corr=ALL_TREE_TAGS | {"DUMP"} | NODE_TAGS, oracle=ALL_TREE_TAGS, theorem="Properties/C12.v", special="pool"),
     "C13": dict(title="key arguments", families=[("tree:full:alpha", 10, 100, 120, 22), ("tree:full:coll", 6, 60, 100, 14)],
-                corr=ALL_TREE_TAGS - {"RNG"}, oracle=ALL_TREE_TAGS - {"RNG"} | {"RNG"}, theorem="Properties/C13.v",
+                corr=ALL_TREE_TAGS, oracle=ALL_TREE_TAGS, theorem="Properties/C13.v",
                 opts=["-buf"], side="C13", corpus=["D8", "D15"]),
     "C14": dict(title="sequences abandoned and re-iterated", families=[("tree:seqs", 16, 160, 110, 22)],
                 corr={"ALL", "BWD", "TOPK", "BOTK", "RNG", "PFX"}, oracle={"ALL", "BWD", "TOPK", "BOTK", "RNG", "PFX"},
@@ -406,7 +406,9 @@ def coq_eval(ctx, files):
         return {}
     nsamp, maxops = (1, 500) if ctx.tier == "quick" else (8, 2500)
     samples = []
-    for f in tree_files[:nsamp]:
+    for f in tree_files:
+        if len(samples) >= nsamp:
+            break
         cmds = read_cmds(f)
         # whole histories, in file order, up to maxops operations; in the quick tier a history that is long or
         # carries very long keys (thousands of keys below nested wide nodes, 4 KiB sort keys) is left to the
@@ -428,6 +430,8 @@ def coq_eval(ctx, files):
                 continue
             keep += h
             nk += len(h)
+        if not keep:
+            continue   # nothing of this file fits the quick sample (only very long histories): take the next file
         p = os.path.join(ctx.work, "keval_%s.cmds" % os.path.basename(f)[:-5].replace("-", "_"))
         open(p, "w").write("\n".join(keep) + "\n")
         samples.append(p)
